@@ -88,8 +88,8 @@ fn main() {
                 "C07" => props::c07(c, &b),
                 "C08" => props2::c08(c, &b),
                 "C09" => { props4::c09(c, &b); props4::c09_glue(c, &b); }
-                "C10" => props4::c10(c, &b),
-                "C11" => props4::c11(c, &b),
+                "C10" => { props4::c10(c, &b); props4::c10_model(c, &b); }
+                "C11" => { props4::c11(c, &b); props4::c11_model(c, &b); }
                 "C12" => { props2::c12(c, &b); props_enum::run(c, "C12", &b); }
                 "C13" => props2::c13(c, &b),
                 "C14" => { props2::c14(c, &b); props_enum::run(c, "C14", &b); }
